@@ -98,6 +98,31 @@ CLAIMS = {
              'matrices hide it; chain-rule plumbing through loops/Custom/user operations and numerical accuracy are NOT decided.',
         note='Trusts: CPython ast; oracles/calculus.json (textbook calculus); the normal-form algebra is one-sided: an unforeseen but correct spelling (a trig identity) would be reported, accepted alternatives are listed in the oracle.',
         design='DESIGN.md section 2, C04'),
+    'C02': dict(
+        technique='static analysis: def-use provenance of emitted in-place operations, path enumeration of the in-place protocols, who-may-call, field-coverage lint of the code printer, dependency reachability (ast)',
+        text='PARTIAL. Decides the emission discipline of the code generator: every emitted in-place operation targets storage the emitting node owns; accumulation into `out` is preceded by a zero fill on every path on which '
+             'mode may be assign; the in-place protocol of another node is entered only through the builder whose escape test keeps dependents/block-order/NotImplemented in order with the copy/iadd fallback; every '
+             'expression/statement class of the printer covers all its fields (variables, printing, emptiness, rerun filter) and parenthesises operands; every compiled field is an announced dependency; '
+             '_compile_expression arities match. Each clause is necessary for a faithful translation of every DAG shape (a missing zero fill survives the suite because numpy.empty often returns zero pages); that loop '
+             'grouping, block ids, Assemble index transposition and the numpy-specific rewrites compute the right values is NOT decided.',
+        note='Trusts: CPython ast; the table of owned-storage constructors and view constructors (transpose = full cover, einsum diagonal = partial, slices = loop partition) confirmed by reading.',
+        design='DESIGN.md section 2, C02'),
+    'C03': dict(
+        technique='static analysis: def-use and ordering facts over the cache branch of compile(), shared provenance/printer/constancy/ingestion rules, guard typing of memo slots (ast)',
+        text='PARTIAL. Decides the hidden-state protocols: no emitted in-place write can reach an argument, constant or cached value and the rerun filter reaches every nested statement; the constant-intermediate cache '
+             'collects exactly the argument-free Array nodes, freezes them read-only, declares them global with first_run, filters the rerun body before the freeze and clears first_run last; isconstant/arguments '
+             'overrides are conservative; arguments are ingested by asarray with a shape test; solver.System memo slots hold a matrix only under is_constant_matrix. Violating any of them makes a later call depend on an '
+             'earlier one for some call sequence; aliasing of returned arrays through zero-stride views and the memo tables of function.Basis are NOT decided.',
+        note='Trusts: CPython ast; NumPy semantics of setflags(write=False) and asarray.',
+        design='DESIGN.md section 2, C03'),
+    'C06': dict(
+        technique='static analysis: guard implication by an order closure over symbolic lo/hi terms on enumerated paths; interval-arithmetic table for elementary transfer functions; dependency reachability; override lint (ast)',
+        text='PARTIAL. Decides the consumers of inferred integer ranges: at every return that drops an InRange/Mod/Minimum/Maximum/NormDim node (or licenses singular_like, index-ness, non-negative exponents, uniform '
+             'constants) the path condition implies, by transitive closure with strictness, the inequality that makes the dropped node the identity; the elementary transfer functions equal interval arithmetic; every '
+             'compiled field is an announced dependency; isconstant/arguments overrides are conservative. Soundness of the ~25 non-elementary transfer functions, shape/dtype of every node class and function.Array '
+             'metadata are NOT decided (they need evaluation of the functions, concretely or symbolically - another technique family).',
+        note='Trusts: CPython ast; the meaning of each dropped node (index in [0,length), a mod b = a, ...); guards written in other algebraic spellings than comparisons of lo/hi terms are not understood and would be reported.',
+        design='DESIGN.md section 2, C06'),
 }
 
 NOT_APPLICABLE = {
